@@ -298,10 +298,14 @@ func specCtx(c JsonNode, l []JsonNode, k int) bool {
 }
 
 // specListLeafOK: the hunk (before, remove, add, after) applies at index i of l.
-// Index -1 appends; its context lines are placeholders and are not checked.
 func specListLeafOK(l []JsonNode, i int, before, remove, after []JsonNode) bool {
 	if i == -1 {
-		return len(remove) == 0
+		// -1 appends: it stands for the index after the last element, and the context lines are
+		// checked there like anywhere else (C03: every context line equals the adjacent element or
+		// the array boundary)
+		return len(remove) == 0 &&
+			forallInt(0, len(before), func(j int) bool { return specCtx(before[j], l, len(l)-(len(before)-j)) }) &&
+			forallInt(0, len(after), func(j int) bool { return specCtx(after[j], l, len(l)+j) })
 	}
 	if i < 0 || i+len(remove) > len(l) {
 		return false
